@@ -16,11 +16,38 @@ import (
 // rapid so that shrinking and replay work.
 type G struct{ T *rapid.T }
 
+// Int draws a size-like integer. rapid's IntRange favours small values,
+// which is what we want for sizes (and for shrinking).
 func (g G) Int(lo, hi int, label string) int { return rapid.IntRange(lo, hi).Draw(g.T, label) }
-func (g G) Bool(pct int, label string) bool  { return rapid.IntRange(0, 99).Draw(g.T, label) < pct }
-func Pick[T any](g G, xs []T, label string) T {
-	return xs[rapid.IntRange(0, len(xs)-1).Draw(g.T, label)]
+
+// U draws a (nearly) uniform integer in [0,n). rapid's integer generators are
+// strongly biased towards small values, which distorts weighted choices; U
+// assembles the number from fair boolean draws instead (all false = 0, so
+// cases still shrink towards the first alternative).
+func (g G) U(n int, label string) int {
+	if n <= 1 {
+		return 0
+	}
+	bits := 0
+	for (1 << bits) < n {
+		bits++
+	}
+	bits += 3 // keeps the modulo bias below 1/8 of a bucket
+	x := 0
+	for i := 0; i < bits; i++ {
+		x <<= 1
+		if rapid.Bool().Draw(g.T, label) {
+			x |= 1
+		}
+	}
+	return x % n
 }
+
+// Bool is true with probability pct/100.
+func (g G) Bool(pct int, label string) bool { return g.U(100, label) < pct }
+
+// Pick chooses uniformly.
+func Pick[T any](g G, xs []T, label string) T { return xs[g.U(len(xs), label)] }
 
 // Words is the vocabulary documents are assembled from. It is chosen so that
 // queries hit: several cases, words that are prefixes / suffixes / overlaps of
